@@ -533,6 +533,84 @@ fn main() {
         );
     }
 
+    // ------------------------------------------------------------ unbounded component recursion, every route
+    // "never ... overflows": a component that calls itself without end must hit the nesting limit
+    // whatever lies between two calls - nothing, an include, two includes, an extending template, a
+    // call body, a loop, a capture (seeded changes C11-2 and C07-7 lost the depth at `include`).
+    {
+        let between: Vec<(&str, Vec<(&str, String)>, &str)> = vec![
+            ("direct", vec![("lib", "{% component card(n=0) %}[{{ n }}{{ <card n={n + 1} /> }}]{% endcomponent card %}".into())], "lib"),
+            ("include", vec![
+                ("lib", "{% component card(n=0) %}[{{ n }}{% include \"inner\" %}]{% endcomponent card %}".into()),
+                ("inner", "{{ <card n={n + 1} /> }}".into()),
+            ], "inner"),
+            ("two-includes", vec![
+                ("lib", "{% component card(n=0) %}[{{ n }}{% include \"mid\" %}]{% endcomponent card %}".into()),
+                ("mid", "m{% include \"inner\" %}".into()),
+                ("inner", "{{ <card n={n + 1} /> }}".into()),
+            ], "inner"),
+            ("include-in-loop-in-capture", vec![
+                ("lib", "{% component card(n=0) %}[{% for i in [1] %}{% filter upper %}{% include \"inner\" %}{% endfilter %}{% endfor %}]{% endcomponent card %}".into()),
+                ("inner", "{% set k = n + 1 %}{{ <card n={k} /> }}".into()),
+            ], "inner"),
+            ("extending-template", vec![
+                ("lib", "{% component card(n=0) %}[{% include \"page\" %}]{% endcomponent card %}".into()),
+                ("base", "b{% block main %}x{% endblock %}".into()),
+                ("page", "{% extends \"base\" %}{% block main %}{{ <card n={n + 1} /> }}{% endblock %}".into()),
+            ], "page"),
+            ("call-body", vec![
+                ("lib", "{% component wrap() %}({{ body }}){% endcomponent wrap %}{% component card(n=0) %}[{% <wrap> %}{% include \"inner\" %}{% </wrap> %}]{% endcomponent card %}".into()),
+                ("inner", "{{ <card n={n + 1} /> }}".into()),
+            ], "inner"),
+            ("mutual-through-include", vec![
+                ("lib", "{% component a(n=0) %}a{% include \"toB\" %}{% endcomponent a %}{% component b(n=0) %}b{% include \"toA\" %}{% endcomponent b %}".into()),
+                ("toB", "{{ <b n={n + 1} /> }}".into()),
+                ("toA", "{{ <a n={n + 1} /> }}".into()),
+            ], "toA"),
+        ];
+        let nbt = between.len() as u64;
+        for stack_mb in [8usize, 2] {
+            let name = format!("unbounded-component-recursion-{stack_mb}MiB");
+            run.family(
+                Family::new(
+                    &name,
+                    nbt,
+                    "7 accepted sets in which a component calls itself without end - directly, through one or two includes, through an include inside a loop inside a capture, through an extending template, through a call body, two components through includes - rendered from every template, through render_component and render_block: an error value, never a crash",
+                )
+                .stack_mb(stack_mb)
+                .timeout(60.0)
+                .describe(|i| json!({"between_two_calls": between[i as usize].0, "templates": between[i as usize].1}))
+                .crash_signature({
+                    let names: Vec<&str> = between.iter().map(|b| b.0).collect();
+                    move |i, kind| format!("{}:unbounded-component-recursion:{}:{stack_mb}MiB", if kind == "hang" { "hang" } else { "stack-overflow" }, names[i as usize])
+                }),
+                |item, acc: &mut Acc| {
+                    let (what, tpls, entry) = &between[item as usize];
+                    let prog = Program {
+                        templates: tpls.iter().map(|(n, s)| (n.to_string(), s.clone())).collect(),
+                        entry: entry.to_string(),
+                        blocks: vec!["main".into()],
+                        components: vec!["card".into(), "a".into()],
+                    };
+                    let Ok(t) = build(&prog) else {
+                        // a stricter registration check is allowed
+                        acc.case(true, "rejected");
+                        return;
+                    };
+                    let ctx = bind(&[V::I64(1), V::I64(2), V::I64(3)]);
+                    let mut nctx = tera::Context::new();
+                    nctx.insert("n", &1i64);
+                    for (name, _) in tpls.iter() {
+                        let p = Program { templates: prog.templates.clone(), entry: name.to_string(), blocks: prog.blocks.clone(), components: prog.components.clone() };
+                        let case = || json!({"between_two_calls": what, "templates": tpls, "entry": name});
+                        totality(&t, &p, &ctx, acc, "unbounded-component-recursion", "recursion", true, &case);
+                        totality(&t, &p, &nctx, acc, "unbounded-component-recursion", "recursion", true, &case);
+                    }
+                },
+            );
+        }
+    }
+
     // ------------------------------------------------------------ long inputs of the ordering filters
     // std's sort panics when it notices that the comparison is not a total order - but only looks
     // for that on inputs of more than 20 elements. Values whose mutual order is the delicate part
